@@ -274,6 +274,17 @@ def answer (kind : String) (payload : List Sx) : String :=
   | "eval", [c, e] =>
     let (o, st) := execute (decCtx c) (decExpr e)
     "(res " ++ encOutcome encValue o ++ " " ++ encLog st.log ++ ")"
+  | "cmp2", [a, b] =>
+    let va := decValue a; let vb := decValue b
+    let bit := fun (x : Bool) => if x then "1" else "0"
+    "(cmp2 " ++ bit (Value.eq va vb) ++ " " ++ bit (Value.eq vb va) ++ " " ++ encOrd (Value.partialCmp va vb)
+      ++ " " ++ encOrd (Value.partialCmp vb va) ++ ")"
+  | "evalpair", [c, e1, e2] =>
+    let ctx := decCtx c
+    let (o1, st1) := execute ctx (decExpr e1)
+    let (o2, st2) := execute ctx (decExpr e2)
+    "(pair (res " ++ encOutcome encValue o1 ++ " " ++ encLog st1.log ++ ") (res "
+      ++ encOutcome encValue o2 ++ " " ++ encLog st2.log ++ "))"
   | "macro", (.atom f :: tgt :: args) =>
     let target : Option Expr := match tgt with
       | .atom "none" => none
